@@ -715,6 +715,17 @@ theorem beacon_parse_is_wire_model (f : Bytes) :
     (Tins.Wire.Wifi.Dot11.parse "Dot11Beacon" f = .throw .malformedPacket ∧ parseBeacon f = .throw .malformedPacket) :=
   Tins.CryptoWire.parseBeacon_agrees f
 
+/-- **Dot11Data / Dot11QoSData**: for every byte string of frame-control type Data, `parseFrame` yields the header
+    fields of the wire family's object (the addresses and DS bits the capturer's pair, `extract_addr_pair` and `find_ap`
+    are computed from; QoS control exactly for `Dot11QoSData`) and the payload its constructor hangs below, and throws
+    exactly when `Dot11::from_bytes` throws -/
+theorem data_header_parse_is_wire_model (ip : InnerParser) (fc0 fc1 : UInt8) (r : Bytes) (hty : (fc0 >>> 2) &&& 3 = 2) :
+    (∃ d i, Tins.Wire.Wifi.Dot11.fromBytes (fc0 :: fc1 :: r) = .ok (d, i) ∧
+        parseFrame ip (fc0 :: fc1 :: r) = Tins.CryptoWire.frameOf ip (Tins.CryptoWire.dataHdrView d) i) ∨
+    (Tins.Wire.Wifi.Dot11.fromBytes (fc0 :: fc1 :: r) = .throw .malformedPacket ∧
+        parseFrame ip (fc0 :: fc1 :: r) = Tins.Crypto.Out.throw .malformedPacket) :=
+  Tins.CryptoWire.parseFrame_data_agrees ip fc0 fc1 r hty
+
 /-- non-vacuity: a 99-byte RSN EAPOL-Key frame is parsed (by both models) into an object with a 94-byte header -/
 example : (parseEapol ([1, 3, 0, 95, 2] ++ List.replicate 94 0)).toOption.bind (·.map (·.hdr.length)) = some 94 := by decide
 
